@@ -112,7 +112,7 @@ def _run(exe, args, timeout=300):
 
 
 def crate_for(oracle: str) -> str:
-    if oracle.startswith('lsp::') or oracle.startswith('incan::'):
+    if oracle.startswith('lsp::') or oracle.startswith('incan::') or oracle.startswith('diffrun::'):
         return 'replay_lsp+lsp'
     return 'replay_lsp' if oracle.startswith('syntax::') else 'replay'
 
@@ -236,6 +236,22 @@ def run_bounded(pid, items, root):
         if not exe:
             rows.append({'oracle': it['oracle'], 'error': 'driver build failed (does /repo still compile?)'})
             continue
+        if it['oracle'].startswith('diffrun::'):
+            # seeded programs through the WHOLE pipeline (front end, code generator, cargo/rustc, execution) against Python's values
+            import diffrun
+            tier = os.environ.get('VERIF_TIER_EFFECTIVE', 'quick')
+            programs = it.get('programs_thorough', 4) if tier == 'thorough' else it.get('programs_quick', 1)
+            try:
+                total, bad = diffrun.run(pid, exe, os.path.join(root, '.build'), programs, it['functions'], int(os.environ.get('VERIF_SEED', '0') or 0) * 100)
+            except subprocess.TimeoutExpired:
+                rows.append({'oracle': it['oracle'], 'error': 'timeout while building / running a generated program'})
+                continue
+            row = {'oracle': it['oracle'], 'bound': it['bound'], 'function': it['function'], 'cases': total, 'result': 'no failing case' if bad is None else 'FAILING CASE'}
+            if bad is not None:
+                row['counterexample'] = {'oracle': it['oracle'], 'args': bad['args'], 'observed': bad['observed'], 'expected': bad['expected'], 'what': bad['what'],
+                                         'class': None, 'program': bad.get('source', '')[-2500:], 'source': 'bounded stand-in: seeded programs compiled, built and run through the real pipeline'}
+            rows.append(row)
+            continue
         v = _run(exe, ['search', it['oracle'], '0', str(it['cases']), skip], timeout=600)
         row = {'oracle': it['oracle'], 'bound': it['bound'], 'function': it['function'], 'cases': v.get('tried'), 'result': 'no failing case' if v.get('found') is False else 'FAILING CASE'}
         if v.get('found'):
@@ -273,6 +289,15 @@ def rerun(path, root):
     exe = build(root, crate_for(cx['oracle']))
     if not exe:
         return 2
+    if cx['oracle'].startswith('diffrun::'):
+        # regenerate the same seeded program and run it again through the whole pipeline
+        import diffrun
+        a = cx['args']
+        v = diffrun.check_program(exe, a['property'], a['seed'], a['functions'], os.path.join(root, '.build', 'diffrun_replay'))
+        print(json.dumps({k: v[k] for k in v if k != 'source'}, indent=1))
+        if not v['ok']:
+            print(v.get('source', '')[-3000:])
+        return 1 if v.get('ok') is False else 0
     v = _run(exe, ['call', cx['oracle'], json.dumps(cx['args'])])
     print(json.dumps(v, indent=1))
     return 1 if v.get('ok') is False else 0
